@@ -377,12 +377,83 @@ def sc_key(sc: dict) -> str:
     return json.dumps([sc["N"], sc["custom"], sc["htype"], sorted((list(k), v) for k, v in sc["cls"].items()), sorted(sc["mask"]), sc["slmEnd"], sc["backend"], list(sc["T"])])
 
 
+def register_noise_cases(ctx: Ctx, count: int) -> None:
+    """Register (position) noise: every noise trajectory has its own shaken register, and without a user matrix the
+    interaction matrix of trajectory k must come from THAT register (then cutoff, then SLM mask).  Pulser's per-trajectory
+    matrix is the trusted source of the shaken geometry."""
+    import numpy as np
+    import pulser
+    import torch
+    from emu_base.pulser_adapter import PulserData
+    from emu_sv import SVConfig
+    from pulser.backend import Occupation
+    from pulser.devices import MockDevice
+    from pulser.noise_model import NoiseModel
+
+    rng = ctx.rng
+    for c in range(count):
+        n = rng.choice([3, 4, 5])
+        xy = c % 2 == 1
+        coords = [(6.5 * i + rng.uniform(-0.4, 0.4), rng.uniform(-0.4, 0.4) + (5.5 if i % 2 else 0.0)) for i in range(n)]
+        reg = pulser.Register.from_coordinates(coords, prefix="q")
+        seq = pulser.Sequence(reg, MockDevice)
+        seq.declare_channel("ch", "mw_global" if xy else "rydberg_global")
+        masked = sorted(rng.sample(range(n), rng.randint(0, n - 1)))
+        if masked:
+            seq.config_slm_mask([f"q{j}" for j in masked])
+        seq.add(pulser.Pulse.ConstantPulse(100, 3.0, 0.0, 0.0), "ch")
+        seq.add(pulser.Pulse.ConstantPulse(100, 3.0, 1.0, 0.0), "ch")
+        ntraj = rng.choice([2, 3, 4])
+        cutoff = rng.choice([0.0, 0.0, 1.0, 5.0])
+        noise = NoiseModel(temperature=rng.choice([30.0, 50.0]), trap_waist=1.0, trap_depth=150.0, disable_doppler=True)
+        np.random.seed(ctx.seed * 1009 + c)
+        torch.manual_seed(ctx.seed * 1009 + c)
+        try:
+            cfg = SVConfig(dt=10, observables=[Occupation(evaluation_times=[1.0])], noise_model=noise, n_trajectories=ntraj, interaction_cutoff=cutoff, log_level=100)
+            data = PulserData(sequence=seq, config=cfg, dt=10)
+            trajs = []
+            for smp in data.hamiltonian.noisy_samples:
+                trajs += [smp.trajectory] * smp.reps
+            sds = list(data.get_sequences())
+        except Exception as ex:   # pulser API of another version: nothing to decide
+            ctx.notes.append(f"register-noise case {c} could not be built: {type(ex).__name__}: {ex}")
+            continue
+        slm_end = float(seq._slm_mask_time[1]) if masked and len(seq._slm_mask_time) > 1 else 0.0
+        wants = []
+        for tr in trajs:
+            m = torch.as_tensor(tr.interaction_matrix.as_tensor(), dtype=torch.float64)
+            m = (m[0] if m.ndim == 3 else m).clone()
+            m[m.abs() < cutoff] = 0.0
+            wants.append(m)
+        distinct = len({tuple(np.round(w.flatten().tolist(), 9)) for w in wants})
+        ctx.case(("register-noise", c, n, xy, tuple(masked), cutoff, ntraj), nontrivial=distinct > 1,
+                 sample={"register_noise": True, "n": n, "xy": xy, "masked": masked, "cutoff": cutoff, "trajectories": ntraj, "distinct_matrices": distinct})
+        if len(sds) != len(trajs):
+            continue    # the number of simulated trajectories is C21's / C34's subject
+        for k, (sd, want_full) in enumerate(zip(sds, wants)):
+            want_masked = want_full.clone()
+            for j in masked:
+                want_masked[j, :] = 0.0
+                want_masked[:, j] = 0.0
+            for t in ([0.0, 0.5 * slm_end] if slm_end > 0 else []) + [slm_end + 5.0, 195.0]:
+                want = want_masked if t < slm_end else want_full
+                got = torch.as_tensor(sd.interaction_matrix(t), dtype=torch.float64)
+                ok = got.shape == want.shape and torch.equal(got, got.T) and not bool(got.diagonal().any()) and torch.allclose(got, want, rtol=1e-9, atol=1e-12)
+                if not ok:
+                    other = [k2 for k2, w2 in enumerate(wants) if k2 != k and got.shape == w2.shape and torch.allclose(got if t >= slm_end else got, (w2 if t >= slm_end else got), rtol=1e-9, atol=1e-12)]
+                    ctx.violation("imat:register-noise:trajectory-matrix-not-from-its-own-register",
+                                  f"{'XY' if xy else 'ising'} {n} atoms, trajectory {k} of {ntraj}, t={t}: the interaction matrix is not the one of this trajectory's (shaken) register after cutoff {cutoff} and mask {masked}",
+                                  {"coords": coords, "xy": xy, "masked": masked, "cutoff": cutoff, "n_trajectories": ntraj, "trajectory": k, "t": t,
+                                   "got": got.tolist(), "want": want.tolist(), "seed": ctx.seed * 1009 + c})
+                    break
+
+
 def run(ctx: Ctx) -> None:
     ctx.level = "model_checking"
     rep = Reporter(ctx)
     ctx.assumptions += [
         "entries are modelled by their magnitude class relative to the cutoff; the numbers come from the independent reference (C6/r^6, C3/r^3 with the device coefficients, default magnetic field) and from the user matrix",
-        "pulser Register / Sequence.config_slm_mask / _slm_mask_time / HamiltonianData trajectory matrix are trusted; no register noise",
+        "pulser Register / Sequence.config_slm_mask / _slm_mask_time / HamiltonianData trajectory matrix are trusted; register noise: per-trajectory matrices against Pulser's own shaken-register matrix",
         "the diagonal is not modelled: register matrices must have an exactly zero diagonal, a diagonal in a user matrix must be without effect on both backends",
         "a step that straddles the SLM end may use either matrix; a direct query at exactly the SLM end is not decided (the step-level requirement decides what the backends need)",
         "hooks sv_step (matrix handed to the stepper), sv_evolve, mps_imat, h_make, mps_init, mps_step_done",
@@ -603,6 +674,7 @@ def run(ctx: Ctx) -> None:
             rep.violation(f"user-matrix-diagonal-has-effect:{sp['backend']}", f"a diagonal in the user interaction matrix changes the results of {sp['backend']} by {rr['diff']}", {"spec": sp})
     ctx.coverage["diagonal_effect_worst_margin"] = worst
     ctx.coverage["violations_per_key"] = dict(rep.counts)
+    register_noise_cases(ctx, ctx.pick(12, 80))
     ctx.coverage["rule"] = ("one case per realised scenario: (N, user matrix or register, interaction type, magnitude class of every pair, SLM mask subset, SLM end position, backend); "
                             "N = 3: scenarios enumerated by TLC (all in the thorough tier), N = 4: random geometry / user matrices judged by the python twin of the requirement; "
                             "each case = 5..11 direct queries + 3 backend steps")
